@@ -259,6 +259,13 @@ def run(ctx):
         if 'crash' in o:
             ctx.broken('driver could not render/run %s' % c['id'], o['crash'], {'case': c})
             continue
+        unrenderable = any('SyntaxError' in str(x) for obs in o.get('observe', {}).values() for x in obs)
+        if unrenderable:
+            # a combination of faults that is not a Python program at all (e.g. a
+            # required parameter after one with a default): nothing to gate
+            o['crash'] = 'unrenderable'
+            hist['unrenderable'] = hist.get('unrenderable', 0) + 1
+            continue
         for pi, obs in o.get('observe', {}).items():
             if obs:
                 ctx.broken('renderer self-check: generated package differs from its descriptor',
